@@ -340,8 +340,8 @@ def mon_c12(run, case, stmts):
             d = (e["upd"].get("StepOptions") or {}).get("NextAttemptDelaySeconds")
             if not isinstance(d, int) or d < 1:
                 run.v("C12", "retry_delay_below_one_second", "step", f"{p}: RETRY with NextAttemptDelaySeconds={d!r}")
-        if s is not None and s.get("op") == "step":
-            r = s.get("retry") or {}
+        if s is not None and s.get("op") == "step" and s.get("retry", {"kind": "none"}) is not None:
+            r = s.get("retry", {"kind": "none"})
             mx = r.get("max") if r.get("kind") == "table" else (r.get("cfg") or {}).get("max_attempts") if r.get("kind") == "config" else 1 if r.get("kind") == "none" else None
             if mx is not None and len(retry_recs) > mx - 1:
                 run.v("C12", "more_retries_than_max_attempts", "step", f"{p}: {len(retry_recs)} RETRY records with max attempts {mx}")
@@ -358,7 +358,9 @@ def mon_c12(run, case, stmts):
             n = sum(1 for e in run.entries if e["path"] == p and e["kind"] == "step")
             if n == 0:
                 continue
-            beh, r = s["beh"], s.get("retry") or {"kind": "none"}
+            beh, r = s["beh"], s.get("retry", {"kind": "none"})
+            if r is None:
+                continue  # SDK default preset (jittered); counted by the packaged-strategy half
             if r["kind"] == "table" and not r.get("nonretry"):
                 mx = r["max"]
             elif r["kind"] == "none":
